@@ -35,6 +35,9 @@ def parseHop (cs : List Char) : Option Hop :=
   | c :: rest =>
     if c.isDigit then (natOf cs u32max).map Hop.asn
     else
+      -- lower case: the same segment with two-octet AS numbers (the width is not route content)
+      let two := c == 's' || c == 'q' || c == 'c' || c == 'd'
+      let c := c.toUpper
       let ty := if c == 'S' then 1 else if c == 'Q' then 2 else if c == 'C' then 3 else if c == 'D' then 4 else 0
       if ty == 0 then none
       else
@@ -44,6 +47,7 @@ def parseHop (cs : List Char) : Option Hop :=
         | some as =>
           if as.length > 255 then none
           else if ty == 2 && as.isEmpty then none
+          else if two && as.any (· > 65535) then none
           else some (Hop.seg ty as)
 
 def parsePath (cs : List Char) : Option (Slot (List Hop)) :=
